@@ -710,6 +710,7 @@ class Gen:
         self.feats = set()
         self.nloc = 0
         self.loops = 0
+        self.nl = 2           # budget of non-linear operations (variable * variable, / and % by a variable) per program
 
     def pick_type(self):
         return self.r.choice(["int"] * 4 + ["byte"] * 2 + self.TS)
@@ -752,7 +753,12 @@ class Gen:
                     self.feats.add("mixed-type")
             bits = tinfo(T, self.ib)[0]
             lhs = self.expr(T, d - 1)
-            if op in ("/", "%"):
+            if op in ("*", "/", "%") and self.nl <= 0:
+                rhs = K(S, r.choice([1, 2, 3, 7, 10]))
+                if op != "*":
+                    self.feats.add("div" if op == "/" else "mod")
+            elif op in ("/", "%"):
+                self.nl -= 1
                 self.feats.add("div" if op == "/" else "mod")
                 y = r.random()
                 if y < 0.4:
@@ -773,6 +779,8 @@ class Gen:
                 else:
                     rhs = self.varleaf(S)       # may be out of range: premise
             else:
+                if op == "*":
+                    self.nl -= 1
                 rhs = self.expr(S, d - 1)
             if S != T and r.random() < 0.5:
                 lhs, rhs = (rhs, lhs) if op in ("+", "*", "&", "|", "^") else (lhs, rhs)
@@ -825,7 +833,10 @@ class Gen:
                 out.append(A(V(n), self.expr(S, 2)))
             else:
                 self.feats.add("compound-assign")
-                out.append(A(V(n), self.expr(T, 1), r.choice(ASSIGN_OPS)))
+                op = r.choice(ASSIGN_OPS)
+                if op == "*=":
+                    self.nl -= 1
+                out.append(A(V(n), K(T, r.choice([2, 3, 5])) if op == "*=" and self.nl < 0 else self.expr(T, 1), op))
         elif x < 0.45:
             T = self.pick_type()
             n = self.fresh()
@@ -915,11 +926,13 @@ class Gen:
         saved = (self.vars, self.assignable, self.bools, self.helpers)
         self.vars = [(f"x{k}", t) for k, t in enumerate(pts)]
         self.assignable, self.bools, self.helpers = [], [], []
+        saved_nl, self.nl = self.nl, 1
         body = []
         if r.random() < 0.5:
             body.append(["if", self.cond(1), [["return", self.expr(ret, 1)]], None])
         body.append(["return", self.expr(ret, 2)])
         self.vars, self.assignable, self.bools, self.helpers = saved
+        self.nl = saved_nl
         return fn(name, ret, [(t, f"x{k}") for k, t in enumerate(pts)], body), (name, ret, pts)
 
     def program(self, pid):
